@@ -11,7 +11,7 @@ jobs = []
 for d in sorted(glob.glob(V + '/seeded/C*')):
     m = json.load(open(d + '/meta.json'))
     own = os.path.basename(d).split('-')[0]
-    props = [own] + [x['check'] for x in m.get('detection', []) if x.get('detected') and x['check'] != own]
+    props = [own] + [x['check'] for x in m.get('detection', []) if isinstance(x, dict) and x.get('detected') and x['check'] != own]
     for p in props:
         jobs.append((p, os.path.basename(d)))
 # group by property so a shard keeps its Lean build warm
